@@ -24,12 +24,17 @@ type c06Params struct {
 	C2S    []int  `json:"c2s"` // write sizes client -> server
 	S2C    []int  `json:"s2c"`
 	RBuf   []int  `json:"rbuf"` // read buffer sizes, used cyclically
+	// ServerFirst: the server (which sends the last Finished of a full handshake) writes its data at once, so
+	// that its first application records may share a transport segment with ChangeCipherSpec and Finished
+	ServerFirst bool `json:"server_first,omitempty"`
+	// ChainPad: extra certificates in the server's chain so that the Certificate message exceeds one record
+	ChainPad int `json:"chain_pad,omitempty"`
 }
 
 func (c06) ID() string    { return "C06" }
 func (c06) Level() string { return "exploration" }
 func (c06) Rule() string {
-	return "each case: suite x dynamic-record-sizing on/off x transport segmentation (whole / random 1..available / one byte per transport read) x a sequence of write sizes per direction drawn around the interesting boundaries (0, 1, the 1208-byte ramp, 16383/16384/16385, multiples of 16384 up to 4x; runs of 1..40 writes without payload) x a cycle of read-buffer sizes from 1 byte to 64 KiB. The client writes, half-closes (CloseWrite), the server reads to EOF, writes, closes, the client reads to EOF. Oracle: every Write returns its length; concatenated reads equal concatenated writes followed by io.EOF; the wire monitor opens every record: plaintext <= 16384, ciphertext <= 16384+2048. distinct = distinct parameter vectors; non-trivial = both directions carried data and ended in EOF"
+	return "each case: suite x dynamic-record-sizing on/off x transport segmentation (whole / random 1..available / one byte per transport read) x a sequence of write sizes per direction drawn around the interesting boundaries (0, 1, the 1208-byte ramp, 16383/16384/16385, multiples of 16384 up to 4x; runs of 1..40 writes without payload) x a cycle of read-buffer sizes from 1 byte to 64 KiB. The client writes, half-closes (CloseWrite), the server reads to EOF, writes, closes, the client reads to EOF; in a third of the cases the server writes first, straight after its Finished; in a sixth the server's certificate chain makes the Certificate message 15-45 KB. Oracle: every Write returns its length; concatenated reads equal concatenated writes followed by io.EOF; the wire monitor opens every record: plaintext <= 16384, ciphertext <= 16384+2048. distinct = distinct parameter vectors; non-trivial = both directions carried data and ended in EOF"
 }
 func (c06) Components() (real, stub []string) {
 	return []string{"tlcp.Conn client+server (instrumented): Write/Read/CloseWrite/Close, record splitting and reassembly"},
@@ -86,6 +91,10 @@ func drawC06(src *vs.Src) *c06Params {
 	n := 1 + src.Intn(4)
 	for i := 0; i < n; i++ {
 		p.RBuf = append(p.RBuf, c06Bufs[src.Intn(len(c06Bufs))])
+	}
+	p.ServerFirst = src.Bool(1, 3)
+	if src.Bool(1, 6) {
+		p.ChainPad = 40 + src.Intn(80) // Certificate message of about 15-45 KB
 	}
 	if p.Seg == 2 || src.Bool(1, 2) {
 		// avoid quadratic cost of tiny buffers over large data: make sure one large buffer is in the cycle
@@ -151,7 +160,7 @@ func (c06) Run(c *Case, src *vs.Src) *Result {
 	w.K.MaxElapsed = 300 * time.Second
 	env := NewEnv(w)
 	cc := &EPConf{Suites: []uint16{p.Suite}, ServerName: "server.test", DynOff: p.DynOff}
-	sc := &EPConf{Suites: []uint16{p.Suite}, Certs: []string{"server_sig", "server_enc"}, DynOff: p.DynOff}
+	sc := &EPConf{Suites: []uint16{p.Suite}, Certs: []string{"server_sig", "server_enc"}, DynOff: p.DynOff, ChainPad: p.ChainPad}
 	if IsECDHE(p.Suite) {
 		cc.Certs = []string{"client_sig", "client_enc"}
 		sc.WrapKeys = true
@@ -178,8 +187,13 @@ func (c06) Run(c *Case, src *vs.Src) *Result {
 			pair.S.Close()
 			return
 		}
-		readToEnd(pair.S, p.RBuf, &ss)
-		writeAll(pair.S, s2c, &ss)
+		if p.ServerFirst {
+			writeAll(pair.S, s2c, &ss)
+			readToEnd(pair.S, p.RBuf, &ss)
+		} else {
+			readToEnd(pair.S, p.RBuf, &ss)
+			writeAll(pair.S, s2c, &ss)
+		}
 		ss.CloseErr = pair.S.Close()
 	})
 	reason, unf := w.Run()
